@@ -23,6 +23,7 @@ type pktScenario struct {
 	Unsol     int        `json:"unsolicited_frames"`
 	UnsolTags []string   `json:"unsolicited_kinds,omitempty"`
 	ExitDelay string     `json:"exit_delay_effective"`
+	ReadErrs  int        `json:"injected_read_errors,omitempty"`
 	plan      *netPlan
 	exitDelay time.Duration
 }
